@@ -270,6 +270,17 @@ fn analyse(w: &World, rel: &Relation, syn: bool, hard: bool, dp_entry: bool, pro
                         //  correct plans release public-valued keys through a LEFT JOIN from VALUES without any
                         //  noise, so the walk raised false alarms; data influence is decided under C01/C04)
                         if ir_reads_protected(w, rw.relation()) { st.bump("accepted_rewriting_reads_protected_table"); }
+                        // column lineage: no output column may be a copy / function of a protected column that reaches the
+                        // result without passing a mechanism (noise-adding projection, tau-thresholded key release)
+                        let protected = |n: &str| w.specs.iter().any(|t| t.protected && (t.name == n || t.path == n));
+                        let out = rw.relation();
+                        for (ci, f) in out.schema().iter().enumerate() {
+                            if let Some(path) = crate::ir::unmechanised_lineage(out, ci, &protected, 0) {
+                                st.violation(json!({"kind":"protected-column-reaches-the-result-without-a-mechanism","query":sql,"synthetic":syn,"column":f.name(),"lineage":path,"event":rw.dp_event().to_string()}));
+                                break;
+                            }
+                        }
+                        st.bump("lineage_checked");
                     }
                     sigs.push((i, Some(format!("{}|{}", signature(rw.relation()), rw.dp_event()))));
                 }
